@@ -105,17 +105,20 @@ public:
   {
     if(&other != this)
     {
+      // other may be an element of the container this variant holds: do not touch it after clear()
       if(other.data->ref)
       {
-        Atomic::increment(other.data->ref);
+        Data* otherData = other.data;
+        Atomic::increment(otherData->ref);
         clear();
-        data = other.data;
+        data = otherData;
       }
       else //if(&other != this)
       {
+        Data otherData = *other.data;
         clear();
         data = &_data;
-        _data = *other.data;
+        _data = otherData;
       }
     }
     return *this;
